@@ -23,7 +23,7 @@ from harness.core import Machinery
 from harness.gnpy_util import EX, TD, NONE, INF
 from harness import planning_util as pu
 
-CLAUSES19 = {'IdIsJoinedId', 'BandwidthIsSum', 'AggregatedOnlyIdentical', 'ServedHasPathProperties', 'NoPathOnlyReason',
+CLAUSES19 = {'ReasonIsFirstRaised', 'IdIsJoinedId', 'BandwidthIsSum', 'AggregatedOnlyIdentical', 'ServedHasPathProperties', 'NoPathOnlyReason',
              'BlockedCarriesReason', 'RouteHopByHop', 'LabelsEqualNM', 'NoLabelWhenBlocked', 'TransponderTypeAndMode',
              'ObjectOrder', 'MetricsEqualReceiver', 'ReverseIffBidir', 'ReverseFromReverseReceiver',
              'CsvNoPathOnlyReason', 'CsvStatesSame', 'CsvLibraryFigures', 'CsvPassFlag', 'CsvBandwidthAndCost',
@@ -226,6 +226,10 @@ def b3(chk):
     for b in range(nrand // 3):
         jobs.append(('testTopology', f'seeded-tt:{b}',
                      {'path-request': pu.loadable('testTopology', pu.random_batch(rng, 'testTopology', f't{b}-', 10))}))
+    for bench in (['meshV2+island'] if chk.tier == 'quick' else ['meshV2+island', 'testTopology']):
+        for label, reqs in pu.near_identical(bench):
+            jobs.append((bench, f'{label}@{bench}', {'path-request': reqs}))
+            jobs.append((bench, f'{label}-reversed@{bench}', {'path-request': list(reversed(reqs))}))
     jobs.append(('meshV2', 'shipped:meshV2_services', load_gnpy_json(EX / 'meshTopologyExampleV2_services.json')))
     jobs.append(('testTopology', 'shipped:testTopology_testservices', load_gnpy_json(TD / 'testTopology_testservices.json')))
     if chk.tier == 'thorough':
@@ -319,6 +323,7 @@ def trace_spec_selftest(chk):
         ('ServedHasPathProperties', lambda t: t['ent'][sv]['e'].update(top=['no-path'])),
         ('NoPathOnlyReason', lambda t: t['ent'][npth]['e'].update(npkeys=['no-path', 'path-properties'])),
         ('BlockedCarriesReason', lambda t: t['ent'][bl]['e'].update(reason='NO_PATH')),
+        ('ReasonIsFirstRaised', lambda t: t['ent'][bl]['o']['raised'].insert(0, 'MODE_NOT_FEASIBLE')),
         ('RouteHopByHop', lambda t: t['ent'][sv]['e']['objs'][3].update(uid='wrong')),
         ('LabelsEqualNM', lambda t: t['ent'][sv]['e']['objs'][1]['nm'].__setitem__(0, [1, 1])),
         ('NoLabelWhenBlocked', lambda t: t['ent'][bl]['e']['objs'].insert(1, dict(k='label', idx=1, uid='', nm=[[0, 4]], type='', mode=''))),
@@ -371,6 +376,8 @@ def run(chk):
                'channel count, route constraints, synchronization); whether identical requests MUST be merged is not judged')
     chk.assume('crafted batches run on meshTopologyExampleV2 plus one unreachable site (NO_PATH) with eqpt_config.json plus '
                'two library transceiver types (VerifDense, VerifHard); no gnpy code is modified')
+    chk.assume('the blocking reason a request must carry is the first one observed on it (at the start / return of routing, '
+               'mode selection, each propagation, spectrum assignment); later stages must not rewrite it')
     chk.assume('the receiver figures are captured at the return of the request\'s own propagation, N/M at the return of '
                'pth_assign_spectrum, the route at the return of compute_path_dsjctn')
 
